@@ -8,6 +8,9 @@ expression; `.fetchone()` / `.fetchall()` / `.lastrowid`, `row["col"]`, `if/else
 `[c for r in rows if r["col"]]`, `db.commit()` / `self._usage_db.commit()`, calls of sibling methods (keyword arguments
 put into the callee's parameter order), `raise Cls(…)`, `return [e]`.
 
+`for v in X.execute(…).fetchall(): …`; in Mailbox.close, `for (send_f, stop_f) in self._listeners.values(): stop_f()` directly
+followed by `self._listeners = {}` is the one statement `.stopListeners`; `any([r["col"] for r in rows])`.
+
 Dropped, and listed in the generated file (`dropped`): `assert isinstance(…)`, aliases `db = self._db`, SQL text bound
 to a local that is only used as the text of `execute`, `if self._log_requests: log.msg(…)`, and the registry block
 `if not <id> in self._mailboxes: [log]; self._mailboxes[<id>] = Mailbox(self, self._db, self._usage_db, self._app_id, <id>)`
@@ -21,11 +24,11 @@ import translate_sql
 
 OUT = os.path.join(os.path.dirname(HERE), "lean", "Wormhole", "GeneratedSrv.lean")
 
-METHODS = [("Mailbox", "open"), ("Mailbox", "_touch"), ("Mailbox", "_add_message"),
+METHODS = [("Mailbox", "open"), ("Mailbox", "_touch"), ("Mailbox", "_add_message"), ("Mailbox", "close"),
            ("AppNamespace", "_add_mailbox"), ("AppNamespace", "open_mailbox"),
            ("AppNamespace", "claim_nameplate"), ("AppNamespace", "release_nameplate")]
 # methods a translated method may call without being translated themselves (primitives of PySrv.callee0)
-PRIMITIVE = {("AppNamespace", "_summarize_nameplate_and_store")}
+PRIMITIVE = {("AppNamespace", "_summarize_nameplate_and_store"), ("AppNamespace", "_summarize_mailbox_and_store")}
 SELF_ATTRS = ("_app_id", "_mailbox_id", "_usage_db")
 
 
@@ -49,7 +52,12 @@ class Fn:
                 for t in n.targets:
                     if isinstance(t, ast.Name):
                         self.assigned.add(t.id)
-            elif isinstance(n, (ast.AugAssign, ast.AnnAssign, ast.For, ast.While, ast.With, ast.Try, ast.Delete,
+            elif isinstance(n, ast.For):
+                if isinstance(n.target, ast.Name):
+                    self.assigned.add(n.target.id)
+                if n.orelse:
+                    self.err("for/else", n)
+            elif isinstance(n, (ast.AugAssign, ast.AnnAssign, ast.While, ast.With, ast.Try, ast.Delete,
                                 ast.Global, ast.Nonlocal, ast.Lambda, ast.FunctionDef, ast.NamedExpr)) and n is not f:
                 self.err("unsupported construct", n)
         both = self.assigned & set(self.params)
@@ -119,6 +127,14 @@ class Fn:
                 return ".len (%s)" % self.expr(n.args[0])
             if n.func.id == "generate_mailbox_id" and not n.args:
                 return ".freshMailboxId"
+        if isinstance(n, ast.Call) and isinstance(n.func, ast.Name) and n.func.id == "any" and len(n.args) == 1 and not n.keywords \
+                and isinstance(n.args[0], ast.ListComp) and len(n.args[0].generators) == 1:
+            lc = n.args[0]
+            g = lc.generators[0]
+            if isinstance(g.target, ast.Name) and not g.ifs and not g.is_async and isinstance(lc.elt, ast.Subscript) \
+                    and isinstance(lc.elt.value, ast.Name) and lc.elt.value.id == g.target.id \
+                    and isinstance(lc.elt.slice, ast.Constant) and isinstance(lc.elt.slice.value, str):
+                return ".anyField (%s) %s" % (self.expr(g.iter), lean_str(lc.elt.slice.value))
         if isinstance(n, ast.Compare) and len(n.ops) == 1 and isinstance(n.ops[0], ast.Gt):
             return ".gt (%s) (%s)" % (self.expr(n.left), self.expr(n.comparators[0]))
         if isinstance(n, ast.ListComp) and len(n.generators) == 1 and isinstance(n.elt, ast.Constant) \
@@ -156,11 +172,13 @@ class Fn:
 
     def method_call(self, n):
         """n: `self.m(…)` / `<objvar>.m(…)` -> (qualified name, target expr or None, args) or None"""
-        if not (isinstance(n, ast.Call) and isinstance(n.func, ast.Attribute) and isinstance(n.func.value, ast.Name)):
+        if not (isinstance(n, ast.Call) and isinstance(n.func, ast.Attribute)):
             return None
-        recv, meth = n.func.value.id, n.func.attr
+        recv, meth = src_of(n.func.value), n.func.attr
         if recv == "self":
             cls, target = self.cls, None
+        elif recv == "self._app" and self.cls == "Mailbox":
+            cls, target = "AppNamespace", None      # the AppNamespace this Mailbox belongs to (same app id)
         elif recv in self.objvars:
             cls, target = "Mailbox", ".var %s" % lean_str(recv)
         else:
@@ -213,12 +231,26 @@ class Fn:
             return False
         return made == 1
 
+    def listener_loop(self, st):
+        return isinstance(st, ast.For) and src_of(st.iter) == "self._listeners.values()" and not st.orelse \
+            and isinstance(st.target, ast.Tuple) and [src_of(e) for e in st.target.elts] == ["send_f", "stop_f"] \
+            and len(st.body) == 1 and src_of(st.body[0]) == "stop_f()" and self.cls == "Mailbox"
+
     def stmts(self, body):
         out = []
-        for s in body:
+        i = 0
+        while i < len(body):
+            s = body[i]
+            if self.listener_loop(s):
+                if not (i + 1 < len(body) and src_of(body[i + 1]) == "self._listeners = {}"):
+                    self.err("the listener loop is not followed by `self._listeners = {}`", s)
+                out.append(".stopListeners")
+                i += 2
+                continue
             x = self.stmt(s)
             if x is not None:
                 out.append(x)
+            i += 1
         return lean_list(out)
 
     def drop(self, st, why):
@@ -267,6 +299,8 @@ class Fn:
                 if recv == "self._usage_db":
                     return ".ucommit"
                 self.err("commit on an unknown handle", st)
+            if self.cls == "Mailbox" and src_of(v) == "self._app.free_mailbox(self._mailbox_id)":
+                return self.drop(st, "registry")
             mc = self.method_call(v)
             if mc:
                 return ".call none %s %s %s" % (lean_str(mc[0]), "(some (%s))" % mc[1] if mc[1] else "none", lean_list(mc[2]))
@@ -277,6 +311,11 @@ class Fn:
             if self.registry_block(st):
                 return self.drop(st, "registry")
             return ".if_ (%s) %s %s" % (self.expr(st.test), self.stmts(st.body), self.stmts(st.orelse))
+        if isinstance(st, ast.For) and isinstance(st.target, ast.Name) and not st.orelse:
+            ex = self.execute_call(st.iter)
+            if ex and ex[0] == ".all":
+                return ".forExec %s %s %s %s" % (lean_str(st.target.id), lean_str(ex[1]), lean_list(ex[2]), self.stmts(st.body))
+            self.err("unsupported loop", st)
         if isinstance(st, ast.Raise) and st.exc is not None and st.cause is None:
             e = st.exc
             if isinstance(e, ast.Call) and isinstance(e.func, ast.Name):
